@@ -171,4 +171,7 @@ int __wrap_setrlimit(int r, const struct rlimit *l) {
     return __real_setrlimit(r, l);
 }
 int __wrap_sigaction(int sig, const struct sigaction *a, struct sigaction *o) { if (HOOKED(process_state_)) simos_hooks.process_state_(1, sig, a != NULL); return __real_sigaction(sig, a, o); }
+int __real_pthread_key_create(pthread_key_t *, void (*)(void *));
+/* thread-specific-data keys are a small process-wide pool (1024 in glibc): creating one is reported as what = 3 */
+int __wrap_pthread_key_create(pthread_key_t *k, void (*d)(void *)) { if (HOOKED(process_state_)) simos_hooks.process_state_(3, 0, 1); return __real_pthread_key_create(k, d); }
 mode_t __wrap_umask(mode_t m) { if (HOOKED(process_state_)) simos_hooks.process_state_(2, 0, 1); return __real_umask(m); }
